@@ -1,6 +1,6 @@
 (* Pbf/ProofsNoPanic.v — the block decoder never panics: for EVERY message tree, configuration and
    incoming decoder state, scan_block returns Ok or Err.  (The nil-iterator dereferences guarded by
-   the found-flags are unreachable; index failures are errors since fixes 7644851/a348d0a/887d3f2.) *)
+   the found-flags are unreachable; index failures are errors since fixes 7644851/ed32e9e/9a46487.) *)
 From Coq Require Import ZArith List Bool Lia.
 From Verif Require Import Base.Int64 Pbf.Tree Pbf.Model.
 Import ListNotations.
